@@ -34,10 +34,13 @@ Proof. intros A f g l H. induction l as [|x l IH]; cbn [existsb]; [reflexivity|]
 
 Lemma gen_sim_log_triggers : forall l u, log_triggers l u = log_triggers_gen l u.
 Proof.
-  intros. unfold log_triggers, log_triggers_gen, g_sim_log_triggers, g_sim_log_triggers_block.
-  rewrite cmpN_ge0.
-  destruct (gu_create u <=? gl_at l)%N, (N.eqb (gl_val l) (gu_trig u)), (gu_always u); cbn [andb orb]; try reflexivity.
-  apply existsb_ext'. intros b. rewrite cmpN_ge0. destruct (gl_at l <=? b)%N; reflexivity.
+  intros. unfold log_triggers, log_triggers_gen, g_sim_log_triggers, g_sim_log_triggers_block, cmpN.
+  destruct (N.compare_spec (gl_at l) (gu_create u)); destruct (N.leb_spec (gu_create u) (gl_at l)); try (exfalso; lia);
+    destruct (N.eqb (gl_val l) (gu_trig u)), (gu_always u); cbn [andb orb negb]; gen_split; cbn [andb orb negb];
+    try reflexivity; try (exfalso; lia);
+    apply existsb_ext'; intros b;
+    destruct (N.compare_spec b (gl_at l)); destruct (N.leb_spec (gl_at l) b); try (exfalso; lia);
+    gen_split; try reflexivity; exfalso; lia.
 Qed.
 
 (* one upkeep of the count loop: skipped unless expected; a conditional upkeep adds one perform per eligibility block (1),
@@ -64,10 +67,8 @@ Lemma gen_sim_expected : forall ups logs, expected_performs ups logs = fold_left
 Proof.
   intros. unfold expected_performs. apply fold_left_ext. intros count u.
   unfold exp_step, g_sim_expected_upkeep, SimConditionalType, SimLogTriggerType.
-  rewrite (ofN_eqb_0 (gu_type u)), (ofN_eqb_1 (gu_type u)).
   destruct (gu_expected u); cbn [negb]; [|reflexivity].
-  destruct (N.eqb (gu_type u) 0); [reflexivity|].
-  destruct (N.eqb (gu_type u) 1); [|reflexivity].
+  gen_split; try reflexivity; try (exfalso; lia).
   apply fold_left_ext. intros c l. rewrite <- gen_sim_log_triggers. unfold g_sim_expected_log.
   destruct (log_triggers l u); reflexivity.
 Qed.
@@ -105,11 +106,8 @@ Lemma gen_sim_track_body : forall t m,
 Proof.
   intros [tot v d f] m Hd Hf Hv. cbn in Hd, Hf, Hv. subst d f.
   unfold trk_step, track_body_gen, g_sim_track_body. cbn [k_done k_total k_value k_failed].
-  destruct m as [k|].
-  - destruct (Z.eqb_spec tot 0) as [->|Hne]; cbn; [reflexivity|]. reflexivity.
-  - destruct (Z.eqb_spec tot 0) as [->|Hne].
-    + destruct (Z.eqb_spec v 0); cbn; reflexivity.
-    + destruct (Z.eqb_spec v tot) as [->|Hvt]; [exfalso; apply (Hv Hne); reflexivity|]. cbn. reflexivity.
+  destruct m as [k|]; gen_split; cbn; gen_split; cbn [andb orb negb]; try reflexivity; try (exfalso; lia);
+    try (exfalso; apply Hv; [assumption | congruence]).
 Qed.
 
 (* the precondition is an invariant of the loop: a tracker that is not done has not failed and has not reached a
@@ -154,8 +152,7 @@ Proof.
   intros. unfold fms, median_split_gen, g_sim_median_split. cbn [andb].
   assert (Hn : 0 <= zlen v) by (unfold zlen; lia).
   rewrite Z.rem_mod_nonneg by lia.
-  destruct (Z.eqb_spec (zlen v) 0); [reflexivity|].
-  destruct (Z.eqb_spec (zlen v mod 2) 0); reflexivity.
+  gen_split; cbn [negb]; try reflexivity; exfalso; lia.
 Qed.
 
 Definition maxint : Z := 9223372036854775807.
@@ -249,8 +246,8 @@ Lemma gen_sim_stats_body : forall ps np cs nc pd cd pf cf,
   ((In 2 acts \/ In 3 acts) <-> (ps < np /\ 0 <= pd)) /\ ((In 5 acts \/ In 6 acts) <-> (cs < nc /\ 0 <= cd)) /\
   snd (g_sim_stats_body ps np cs nc pd cd pf cf) = Fall.
 Proof.
-  intros. unfold acts, g_sim_stats_body. rewrite !Z.geb_leb.
-  destruct (Z.ltb_spec ps np), (Z.leb_spec 0 pd), pf, (Z.ltb_spec cs nc), (Z.leb_spec 0 cd), cf; cbn;
+  intros. unfold acts, g_sim_stats_body.
+  destruct pf, cf; gen_split; cbn;
     repeat split; intros; try lia; try tauto;
     repeat match goal with
            | H : _ \/ _ |- _ => destruct H
